@@ -145,3 +145,19 @@ Definition alias_sense (code : Z) : option bool :=
   if existsb (Z.eqb code) max_codes then Some true
   else if existsb (Z.eqb code) min_codes then Some false
   else None.
+
+(* ---- the only side condition of the chain theorem: nothing is listed twice, and positional ranges
+   are in the normal form Python's slice.indices produces ---------------------------------------------- *)
+Fixpoint nodupZ (l : list Z) : bool :=
+  match l with [] => true | x :: t => negb (existsb (Z.eqb x) t) && nodupZ t end.
+Fixpoint nodupN (l : list nat) : bool :=
+  match l with [] => true | x :: t => negb (existsb (Nat.eqb x) t) && nodupN t end.
+Definition sel_ok (s : sel) : bool :=
+  match s with
+  | SLabels ls => nodupZ ls
+  | SPosList ps => nodupN ps
+  | SPosRange a b st => ((st <=? 0) || (0 <=? a))%Z && ((0 <=? st) || (-1 <=? b))%Z
+  | _ => true
+  end.
+Definition op_ok (o : op) : bool :=
+  match o with OSel r c => sel_ok r && sel_ok c | _ => true end.
